@@ -164,6 +164,9 @@ def harness(ctx, C, p):
         return "accept"
     if op == "parse":
         data = ctx.bytes("data", p["n"])
+        if 0 < p["n"] <= 3:
+            # an earlier (possibly failing) parse of unrelated input on the same instance must not influence this one
+            api.outcome(d.parse, ctx.bytes("earlier", p["n"]))
         st = ctx.stream(data)
         ri = api.outcome(d.parse_stream, st)
         try:
